@@ -206,7 +206,8 @@ def shifted_copy(o):
 
 @st.composite
 def random_case(draw):
-    s = draw(gen_atoms.typed_structure(min_atoms=1, max_atoms=8, max_terms=5))
+    large = draw(hperm.integers(0, 3)) == 0      # fragments of 9-16 atoms most of which are declared identical
+    s = draw(gen_atoms.typed_structure(min_atoms=10 if large else 1, max_atoms=24 if large else 8, max_terms=5))
     # make other compatible per kind by construction
     modes = {}
     for k in M.KINDS:
@@ -219,7 +220,7 @@ def random_case(draw):
             modes[k] = ["none", "table", "table", "table-no-terms"]
         else:
             modes[k] = ["none", "untyped", "table", "table-no-terms"]
-    o = draw(gen_atoms.typed_structure(min_atoms=1, max_atoms=6, max_terms=4, tag_base=1.0, pair=bool(s["pair_coeffs"]),
+    o = draw(gen_atoms.typed_structure(min_atoms=9 if large else 1, max_atoms=16 if large else 6, max_terms=4, tag_base=1.0, pair=bool(s["pair_coeffs"]),
                                        label_prefix="o", cell="none"))
     # redraw per-kind content until compatible is too rejection-heavy; instead patch other's tables
     for k in M.KINDS:
@@ -239,6 +240,8 @@ def random_case(draw):
         o["extra_atom_labels"] = list(reversed(gen_atoms.XLABELS["atom"][:len(o["extra_atom_labels"]) + 1]))[:len(o["extra_atom_labels"])]
     ns, no = len(s["pos"]), len(o["pos"])
     k = draw(hperm.integers(0, min(ns, no)))
+    if large and draw(st.booleans()):
+        k = max(0, min(ns, no) - draw(hperm.integers(0, 4)))
     keys = list(draw(hperm.permutations(range(no))))[:k]
     vals = list(draw(hperm.permutations(range(ns))))[:k]
     mp = {str(a): b for a, b in zip(keys, vals)}
@@ -262,6 +265,10 @@ def random_oracle(case, stats):
     oracle(case, stats)
     gen_atoms.spec_stats(case["self"], stats, "self:")
     gen_atoms.spec_stats(case["other"], stats, "other:")
+    no = len(case["other"]["pos"])
+    stats.count("other-atoms:%s" % ("<=8" if no <= 8 else "9+"))
+    if no >= 9 and len(case["map"]) * 2 >= no:
+        stats.count("other-9+-atoms-mostly-shared")
 
 
 PARTS = [
